@@ -51,6 +51,13 @@ def run(ck):
         for cs in body.calls():
             if cs.args and not body.is_cleanup(cs.bb) and cs.name in ("replace", "swap", "take", "clear", "truncate", "drain", "append", "extend", "push", "retain", "remove", "pop") and T.path_has(body, cs.args[0], ".idles"):
                 writers.add(body.qual.split("::{closure")[0])
+    # .. and nobody throws queued callbacks away: entries leave the list only through the take of dispatch_idles
+    for body in f.bodies.values():
+        for cs in body.calls():
+            if cs.args and not body.is_cleanup(cs.bb) and cs.name in ("clear", "truncate", "drain", "retain", "retain_mut", "remove", "pop", "split_off", "dedup_by", "pop_front", "pop_back") and T.path_has(body, cs.args[0], ".idles") and cs.f and ("Vec" in cs.f["path"] or "VecDeque" in cs.f["path"]):
+                if cs.name in ("pop_front",) and body.qual.startswith("EventLoop::dispatch_idles"):
+                    continue
+                ck.violation("1", "T7-who-may-call", body, "idle-list-discarded:%s" % cs.name, "queued idle callbacks are removed from the pending list with `%s` without being run: an idle that was inserted and not cancelled is lost" % cs.name, site=body.where(cs.bb))
     extra = writers - {"LoopHandle::insert_idle", "EventLoop::dispatch_idles", "EventLoop::try_new"}
     ck.verdict(not extra, "1", "T7-who-may-write", "loop_logic::LoopInner", "writers-of:idles", "the idle list is written only by insert_idle (append) and dispatch_idles (take): %s" % sorted(writers), "the idle list is also written by %s" % sorted(extra), site="src/loop_logic.rs")
 
